@@ -40,7 +40,9 @@ func setHeaderFlags(profile string, edit func(flags []string) []string) string {
 		flags := []string{}
 		matches := regFlags.FindStringSubmatch(header)
 		if len(matches) != 0 {
-			flags = strings.Split(matches[1], ",")
+			for _, flag := range strings.Split(matches[1], ",") {
+				flags = append(flags, strings.TrimSpace(flag))
+			}
 		}
 		newFlags := edit(slices.Clone(flags))
 		if slices.Equal(flags, newFlags) {
